@@ -50,6 +50,9 @@ pub struct IS<E: Ex> {
     consumer: Mutex<Option<Consumer<E>>>,
     handle: Handle,
     fd: i32,
+    /// a second batch (`pending()` returns a detached, sendable iterator) handed to another thread
+    batch: Mutex<Option<signal_hook::iterator::backend::Pending<E>>>,
+    handoff: [i32; 2],
 }
 
 #[derive(Clone)]
@@ -69,6 +72,10 @@ pub struct IP {
     /// info-carrying exfiltrator and at most 5 deliveries per signal: every delivery's own record
     /// must come out (nothing can be discarded for lack of space)
     pub match_values: bool,
+    /// Mode::Forever: a new `forever()` iterator for every single item (taken, then dropped)
+    pub forever_one: bool,
+    /// Mode::Pending: the consumer takes two batches at once and a second thread scans one of them
+    pub second_scanner: bool,
 }
 
 fn log_yield<E: Ex>(o: &E::Output) {
@@ -89,8 +96,18 @@ fn consumer_body<E: Ex>(s: &IS<E>, p: &IP) {
         Consumer::Sig(mut sig) => {
             if p.mode == Mode::Forever {
                 sched::log("forever_call", 0, 0);
-                for x in sig.forever() {
-                    log_yield::<E>(&x);
+                if p.forever_one {
+                    loop {
+                        let x = sig.forever().next();
+                        match x {
+                            Some(x) => log_yield::<E>(&x),
+                            None => break,
+                        }
+                    }
+                } else {
+                    for x in sig.forever() {
+                        log_yield::<E>(&x);
+                    }
                 }
                 sched::log("forever_none", 0, 0);
                 if p.prop == "C11" {
@@ -144,8 +161,20 @@ fn consumer_body<E: Ex>(s: &IS<E>, p: &IP) {
                 }
                 sched::wait_readable(fd);
                 sched::log("pending_call", 0, 0);
-                for x in d.pending() {
-                    log_yield::<E>(&x);
+                if p.second_scanner && rounds == 0 {
+                    let mine = d.pending();
+                    let other = d.pending();
+                    *s.batch.lock().unwrap() = Some(other);
+                    unsafe {
+                        libc::write(s.handoff[1], b"x".as_ptr() as *const _, 1);
+                    }
+                    for x in mine {
+                        log_yield::<E>(&x);
+                    }
+                } else {
+                    for x in d.pending() {
+                        log_yield::<E>(&x);
+                    }
                 }
                 sched::log("pending_ret", 0, 0);
                 rounds += 1;
@@ -311,7 +340,11 @@ where
                 (Consumer::Poll(OwningSignalIterator::new(d)), h, fd)
             }
         };
-        Arc::new(IS { consumer: Mutex::new(Some(consumer)), handle, fd })
+        let mut handoff = [0i32; 2];
+        unsafe {
+            libc::pipe(handoff.as_mut_ptr());
+        }
+        Arc::new(IS { consumer: Mutex::new(Some(consumer)), handle, fd, batch: Mutex::new(None), handoff })
     };
     let mut threads: Vec<ThreadSpec<Arc<IS<E>>>> = Vec::new();
     let pk = p.clone();
@@ -321,6 +354,22 @@ where
         nest_signals: p.nest_on_k.clone(),
         max_nest: p.max_nest,
     });
+    if p.second_scanner {
+        threads.push(ThreadSpec {
+            name: "K2",
+            body: Box::new(move |s: &Arc<IS<E>>| {
+                sched::wait_readable(s.handoff[0]);
+                let b = s.batch.lock().unwrap().take();
+                if let Some(b) = b {
+                    for x in b {
+                        log_yield::<E>(&x);
+                    }
+                }
+            }),
+            nest_signals: vec![],
+            max_nest: 0,
+        });
+    }
     let dn = ["D1", "D2", "D3"];
     for (di, sigs) in p.deliverers.iter().enumerate() {
         let sigs = sigs.clone();
@@ -397,6 +446,10 @@ where
     let finish = move |s: Arc<IS<E>>, e: &mut Exec| -> Result<u64, String> {
         let closed_end = s.handle.is_closed();
         let s = Arc::try_unwrap(s).map_err(|_| "engine: state shared".to_string())?;
+        unsafe {
+            libc::close(s.handoff[0]);
+            libc::close(s.handoff[1]);
+        }
         drop(s); // unregisters everything the instance owns, closes the pipe
         if !e.panics.is_empty() {
             return Err(format!("{}: thread panicked: {:?}", pf.prop, e.panics));
@@ -405,7 +458,7 @@ where
     };
     Scenario {
         name: p.name.to_string(),
-        opts: Opts { stale_reads: false, stale_depth: 2, max_spurious: 0, horizon: 60_000, log_ops: false, log_handler_ops: true, reduce: true, no_discipline: false, nest_value_t1: if E::RAW { 0x900 } else { 0 }, post_points: E::RAW, no_race_check: false, start_points: false },
+        opts: Opts { stale_reads: false, stale_depth: 2, max_spurious: 0, horizon: 60_000, log_ops: false, log_handler_ops: true, reduce: true, no_discipline: false, nest_value_t1: if E::RAW { 0x900 } else { 0 }, post_points: E::RAW, no_race_check: false, start_points: false, endurance: 0 },
         signals: vec![S1, S2],
         setup: Box::new(setup),
         threads,
@@ -529,7 +582,7 @@ fn check(log: &[Ev], p: &IP, closed_end: bool) -> Result<u64, String> {
     };
     for ev in log {
         match ev.tag {
-            "yield" => mix(0x1000 + ev.a * 7 + (ev.b >> 1)),
+            "yield" => mix(0x1000 + ev.a * 7 + (ev.b >> 1) + ((ev.tid as u64) << 40)),
             "wait_ret" | "pending_ret" => mix(1),
             "poll_pending" => mix(2),
             "poll_closed" | "forever_none" => mix(3),
@@ -540,7 +593,7 @@ fn check(log: &[Ev], p: &IP, closed_end: bool) -> Result<u64, String> {
 }
 
 fn ip(name: &'static str, prop: &'static str, mode: Mode) -> IP {
-    IP { name, prop, mode, initial: vec![S1], deliverers: vec![], adders: vec![], free_closers: 0, nest_on_k: vec![], max_nest: 1, max_rounds: 8, match_values: false }
+    IP { name, prop, mode, initial: vec![S1], deliverers: vec![], adders: vec![], free_closers: 0, nest_on_k: vec![], max_nest: 1, max_rounds: 8, match_values: false, forever_one: false, second_scanner: false }
 }
 
 pub fn scenarios(prop: &str, tier: Tier) -> Vec<Item> {
@@ -565,6 +618,15 @@ pub fn scenarios(prop: &str, tier: Tier) -> Vec<Item> {
             p.deliverers = vec![vec![S1], vec![S2]];
             p.adders = vec![S2];
             v.push(item(build::<SignalOnly>(p), b(1, 2), "add_signal(S2) from another thread vs deliveries of S1 and S2"));
+            let mut p = ip("sigonly_pending_two_scanners", prop, Mode::Pending);
+            p.deliverers = vec![vec![S1]];
+            p.second_scanner = true;
+            v.push(item(build::<SignalOnly>(p), b(1, 2), "the consumer takes two batches from pending() and another thread scans one of them at the same time: one delivery is reported by at most one of them"));
+            let mut p = ip("sigonly_forever_one_item_per_iterator", prop, Mode::Forever);
+            p.initial = vec![S1, S2];
+            p.deliverers = vec![vec![S1, S2], vec![S2]];
+            p.forever_one = true;
+            v.push(item(build::<SignalOnly>(p), b(1, 2), "two watched signals; the consumer makes a new forever() iterator for every single item and drops it: what the dropped iterator had not handed out yet must come out of the next one"));
             let mut p = ip("sigonly_forever_readd_watched", prop, Mode::Forever);
             p.deliverers = vec![vec![S1, S1]];
             p.adders = vec![S1];
